@@ -534,8 +534,13 @@ def bfs(ctx, rep, k, K):
                 if not np.all(np.isfinite(v)):
                     ctx.fail(cid, c + '.expr', 'nan', P, '%s is non-finite' % name)
                     continue
-                if c.startswith('Twist') or rep.scale(v) > 1e7:
-                    pass
+                if not c.startswith('Twist'):
+                    # closure is the first group axiom: a result that is not a member is reported here and not expanded
+                    # (the laws below are stated for members; C01 judges membership to 1e-9, here only gross failures)
+                    bad = ref.member_defect(v, {'UnitQuaternion': 'UQ'}.get(c, c), 1e-6)
+                    if bad:
+                        ctx.fail(cid, c + '.expr', 'invalid-member', P, '%s is not a group member: %s' % (name, bad))
+                        continue
                 h = canon(rep, v)
                 if h in seen:
                     continue
